@@ -1,12 +1,14 @@
 #!/bin/bash
-# usage: run_seed.sh <seed-dir> <property> [tier]   : applies the seeded patch to /repo, runs the check, reverts.
+# usage: run_seed.sh <seed-dir> <property> [tier]
+# Runs the property's check against a seeded change WITHOUT touching /repo: the patch is applied to a
+# scratch worktree and the check is pointed at it (QUINN_REPO) with its own build/output/evidence dirs.
 SEED=$1; PROP=$2; TIER=${3:-quick}
-cd /repo || exit 2
-if ! git diff --quiet; then echo "/repo not clean"; exit 2; fi
+WT=/tmp/wt/SEEDRUN
+if [ ! -d $WT ]; then git -C /repo worktree add -q --detach $WT HEAD || exit 2; fi
+cd $WT && git checkout -q --detach $(git -C /repo rev-parse HEAD) 2>/dev/null; git checkout -q -- . && git clean -fdq
 git apply $SEED/patch.diff || { echo "patch does not apply"; exit 2; }
 cd /verif
-./check $PROP $TIER > $SEED/check_${PROP}_${TIER}.log 2>&1; rc=$?
-cp evidence/$PROP.json $SEED/evidence_${PROP}_${TIER}.json 2>/dev/null
-git -C /repo checkout -- .
-git -C /verif checkout -- evidence/$PROP.json 2>/dev/null
+QUINN_REPO=$WT VERIF_BUILD=/verif/.build-seed VERIF_OUT=/verif/out-seed VERIF_EVID=/verif/out-seed/evidence ./check $PROP $TIER > $SEED/check_${PROP}_${TIER}.log 2>&1; rc=$?
+cp /verif/out-seed/evidence/$PROP.json $SEED/evidence_${PROP}_${TIER}.json 2>/dev/null
+cd $WT && git checkout -q -- . && git clean -fdq
 echo "SEED $(basename $SEED) property=$PROP tier=$TIER rc=$rc :: $(grep -E '^VIOLATION|^  obligation' $SEED/check_${PROP}_${TIER}.log | head -4 | tr '\n' ' ')"
